@@ -191,3 +191,30 @@ Proof.
   exists (idx + 1)%Z, idx, (len - idx)%Z, (len - idx - 1)%Z, (idx =? 0)%Z, (idx =? len - 1)%Z.
   repeat split; try reflexivity; try lia.
 Qed.
+
+(** * render ... for: one isolated context per item *)
+
+(** Every item of `render 'p' for items` is rendered from the SAME fresh
+    isolated copy [cc] (extended with the item and its forloop): the context an
+    item leaves behind is dropped, only the buffer is threaded on.  Hence what
+    the partial assigns, captures or counts for one item cannot reach the next
+    (the defect fixed in /repo 710b4fc). *)
+Lemma render_iter_restarts_from_fresh_copy g rec body key len nsp it its i cc b :
+  render_iter g rec body key len nsp (it :: its) i cc b =
+  let nsx := dict_set key it (dict_set s_forloop (VForLoop key len i VUndef) nsp) in
+  let r := partial_template g rec body (set_globals cc (nsx :: root_globals cc)) b true in
+  match st r with
+  | SDone => render_iter g rec body key len nsp its (i + 1)%Z cc (bf r)
+  | _ => r
+  end.
+Proof. reflexivity. Qed.
+
+(** the status and the text written for the items after the first do not depend
+    on the context the first item ended in *)
+Lemma render_iter_ignores_what_an_item_leaves g rec body key len nsp it its i cc b :
+  let nsx := dict_set key it (dict_set s_forloop (VForLoop key len i VUndef) nsp) in
+  let r := partial_template g rec body (set_globals cc (nsx :: root_globals cc)) b true in
+  st r = SDone ->
+  render_iter g rec body key len nsp (it :: its) i cc b =
+  render_iter g rec body key len nsp its (i + 1)%Z cc (bf r).
+Proof. cbv zeta. intro H. rewrite render_iter_restarts_from_fresh_copy. cbv zeta. rewrite H. reflexivity. Qed.
